@@ -455,16 +455,16 @@ func c12SetImmutable(path string, on bool) error {
 // ---------------------------------------------------------------------------------------------------------------
 
 type c12Case struct {
-	Kind string   `json:"kind"`
-	V2   bool     `json:"cgroup_v2"`
-	Tree string   `json:"tree"`
-	Mode string   `json:"cache"` // cold | warm | force
-	Tok  int      `json:"unlimited_token"`
-	Old  []int64  `json:"old"`
-	New  []int64  `json:"new"`
+	Kind string  `json:"kind"`
+	V2   bool    `json:"cgroup_v2"`
+	Tree string  `json:"tree"`
+	Mode string  `json:"cache"` // cold | warm | force
+	Tok  int     `json:"unlimited_token"`
+	Old  []int64 `json:"old"`
+	New  []int64 `json:"new"`
 	// Then, when set, is a second, chained rewrite New -> Then executed on the SAME executor (cache kept) right
 	// after Old -> New; it is judged write by write with the same oracle (keys carry the suffix |chained).
-	Then []int64 `json:"then,omitempty"`
+	Then []int64  `json:"then,omitempty"`
 	Show []string `json:"show,omitempty"`
 	// Reject lists the updater-call numbers whose file write is made to fail (kernel-reject emulation).
 	Reject []int `json:"kernel_rejected_calls,omitempty"`
@@ -737,6 +737,11 @@ func c12Exec(rig *c12Rig, kinds []c12Kind, c *c12Case) *c12Run {
 	if clause, _, _ := c12HierarchyBroken(r.t, r.k, c.New); clause != "" {
 		panic("c12 harness: target assignment invalid")
 	}
+	if c.Then != nil {
+		if clause, _, _ := c12HierarchyBroken(r.t, r.k, c.Then); clause != "" {
+			panic("c12 harness: chained target assignment invalid")
+		}
+	}
 
 	// the real executor; time never matters: entries neither expire nor (except in mode force) become stale
 	force := 1 << 30
@@ -898,14 +903,18 @@ type c12Block struct {
 	ncpu  int
 	valid [][]int64
 	modes []string
+	tail  string // b = chained rewrite back to the old assignment, a = chained rewrite to every valid assignment, n = none
 	size  int64
 }
 
 type c12Part struct {
-	name   string
-	ki     int
-	v2     bool
-	blocks []string // "tree" | "tree/ncpu" | "tree/ncpu/modes" (modes: letters of c=cold w=warm f=force)
+	name string
+	ki   int
+	v2   bool
+	// "tree[/ncpu[/modes[/tail]]]": modes = letters of c=cold w=warm f=force (default cwf); tail = what follows the
+	// judged rewrite old->new on the same executor: b (default) = chained rewrite new->old (there and back) then an
+	// identical batch; a = chained rewrite new->C for EVERY valid C, then an identical batch; n = identical batch only
+	blocks []string
 }
 
 // c12Plan lists the parts in execution order: small ones first, the big CPU-set blocks last, so that a time cap
@@ -927,17 +936,18 @@ func c12Plan(kinds []c12Kind, thorough bool) []c12Part {
 		}
 	}
 	if !thorough {
-		add("cfs_quota", "", "chain2", "chain1", "chain3", "fan2", "fan2g")
-		add("memory.min", "", "chain2", "chain1", "chain3", "fan2")
-		add("memory.low", "", "chain2", "fan2")
-		add("memory.high", "", "chain2", "fan2")
-		add("cpuset", "", "chain2/4", "chain1/4", "chain3/4", "fan2/3")
+		add("cfs_quota", "", "chain2", "chain2/0/cwf/a", "chain2/0/cwf/n", "chain1", "chain1/0/cwf/a", "chain3", "chain3/0/cwf/n", "fan2", "fan2g")
+		add("memory.min", "", "chain2", "chain2/0/cwf/a", "chain2/0/cwf/n", "chain1", "chain1/0/cwf/a", "chain3", "fan2")
+		add("memory.low", "", "chain2", "chain2/0/cwf/n", "fan2")
+		add("memory.high", "", "chain2", "chain2/0/cwf/n", "fan2")
+		add("cpuset", "", "chain2/4", "chain2/3/cwf/a", "chain2/4/cwf/n", "chain1/4", "chain1/4/cwf/a", "chain3/4", "fan2/3")
 		return parts
 	}
 	for _, kn := range []string{"cfs_quota", "memory.min", "memory.low", "memory.high"} {
-		add(kn, "", "chain2", "chain1", "chain3", "fan2", "fan2g", "fan2gg")
+		add(kn, "", "chain2", "chain2/0/cwf/a", "chain2/0/cwf/n", "chain1", "chain1/0/cwf/a", "chain3", "chain3/0/cwf/a", "chain3/0/cwf/n",
+			"fan2", "fan2/0/cwf/a", "fan2/0/cwf/n", "fan2g", "fan2gg")
 	}
-	add("cpuset", "", "chain2/4", "chain1/4", "chain3/4", "fan2/4")
+	add("cpuset", "", "chain2/4", "chain2/4/cwf/a", "chain2/4/cwf/n", "chain1/4", "chain1/4/cwf/a", "chain3/4", "chain3/4/cwf/n", "fan2/4", "fan2/3/cwf/n")
 	// the two big blocks: cache mode force re-runs every updater in pass 2 and is covered on the smaller trees
 	add("cpuset", "-fan2g", "fan2g/4/cw")
 	add("cpuset", "-chain3-5cpu", "chain3/5/cw")
@@ -993,7 +1003,10 @@ func TestVerifC12Leveled(t *testing.T) {
 		bounds := map[string]any{}
 		for _, spec := range p.blocks {
 			f := strings.Split(spec, "/")
-			nm, ncpu, modes := f[0], 0, allModes
+			nm, ncpu, modes, tail := f[0], 0, allModes, "b"
+			if len(f) > 3 {
+				tail = f[3]
+			}
 			if len(f) > 1 {
 				ncpu, _ = strconv.Atoi(f[1])
 			}
@@ -1013,12 +1026,19 @@ func TestVerifC12Leveled(t *testing.T) {
 					dom = append(dom, m)
 				}
 			}
-			b := c12Block{tree: tr, ncpu: ncpu, valid: c12Valid(&tr, k, dom), modes: modes}
+			b := c12Block{tree: tr, ncpu: ncpu, valid: c12Valid(&tr, k, dom), modes: modes, tail: tail}
 			b.size = int64(len(b.valid)) * int64(len(b.valid)) * int64(len(b.modes)) * int64(k.NTok)
+			tailTxt := "then chained rewrite new->old on the same executor, then an identical batch"
+			if tail == "a" {
+				b.size *= int64(len(b.valid))
+				tailTxt = fmt.Sprintf("then a chained rewrite new->C on the same executor for each of the %d valid C, then an identical batch", len(b.valid))
+			} else if tail == "n" {
+				tailTxt = "then an identical batch"
+			}
 			blocks = append(blocks, b)
 			total += b.size
-			bounds[spec] = fmt.Sprintf("%d hierarchy-valid assignments -> %d (old,new) pairs x %d cache modes x %d spellings of unlimited = %d cases",
-				len(b.valid), len(b.valid)*len(b.valid), len(b.modes), k.NTok, b.size)
+			bounds[spec] = fmt.Sprintf("%d hierarchy-valid assignments -> %d (old,new) pairs x %d cache modes x %d spellings of unlimited, %s = %d cases",
+				len(b.valid), len(b.valid)*len(b.valid), len(b.modes), k.NTok, tailTxt, b.size)
 		}
 		ds := mc.NewDistinctSet()
 		done, complete := env.ParallelRangeL(res, total, func(l *mc.Local, i int64) {
@@ -1037,7 +1057,14 @@ func TestVerifC12Leveled(t *testing.T) {
 			c.Tok = int(i % int64(k.NTok))
 			i /= int64(k.NTok)
 			c.New = b.valid[i%nv]
-			c.Old = b.valid[i/nv]
+			i /= nv
+			c.Old = b.valid[i%nv]
+			switch b.tail {
+			case "b":
+				c.Then = c.Old
+			case "a":
+				c.Then = b.valid[i/nv]
+			}
 			c12Judge(rigs[l.Worker], kinds, c, res, l, ds)
 		})
 		res.Traces = res.Evaluations
@@ -1052,9 +1079,9 @@ func TestVerifC12Leveled(t *testing.T) {
 			ver = "v2"
 		}
 		if k.IsSet {
-			res.Rule = fmt.Sprintf("cgroup %s %s: blocks tree/#CPUs %v: every pair (old,new) of assignments of non-empty CPU sets with child subset of parent at both ends x cache {cold, warm = primed by a batch with the old values, force = force-update interval elapsed}; the real LeveledUpdateBatch runs with real updaters and every file write is a judged crash point; non-trivial = at least two file writes", ver, k.Name, p.blocks)
+			res.Rule = fmt.Sprintf("cgroup %s %s: blocks tree/#CPUs %v: every pair (old,new) of assignments of non-empty CPU sets with child subset of parent at both ends x cache {cold, warm = primed by a batch with the old values, force = force-update interval elapsed}; the real LeveledUpdateBatch runs with real updaters and every file write is a judged crash point; after the judged rewrite old->new a second, chained rewrite new->C runs on the SAME executor (cache kept) and is judged the same way (C = old for every case, every valid C on the blocks marked /a, none on /n), then an identical batch must stay silent; non-trivial = at least two file writes", ver, k.Name, p.blocks)
 		} else {
-			res.Rule = fmt.Sprintf("cgroup %s %s: trees %v: every pair (old,new) of assignments over %v (MaxInt64 = unlimited) with child <= parent at both ends x cache {cold, warm, force} x spelling of unlimited handed to the updater; the real LeveledUpdateBatch runs with real updaters and every file write is a judged crash point; non-trivial = at least two file writes", ver, k.Name, p.blocks, k.Vals)
+			res.Rule = fmt.Sprintf("cgroup %s %s: trees %v: every pair (old,new) of assignments over %v (MaxInt64 = unlimited) with child <= parent at both ends x cache {cold, warm, force} x spelling of unlimited handed to the updater; the real LeveledUpdateBatch runs with real updaters and every file write is a judged crash point; after the judged rewrite old->new a second, chained rewrite new->C runs on the SAME executor (cache kept) and is judged the same way (C = old for every case, every valid C on the blocks marked /a, none on /n), then an identical batch must stay silent; non-trivial = at least two file writes", ver, k.Name, p.blocks, k.Vals)
 		}
 		res.Assumptions = []string{
 			"files start with the kernel's rendering of the old value; after every observed write the harness replaces the raw string by the kernel's read-back of the same value (cpu.max gets its period field, MaxInt64 reads back as max)",
